@@ -12,7 +12,8 @@ P = "FimVerif.C15."
 THEOREMS = [P + t for t in (
     "add_sub_cancel", "add_comm", "free_eq_sub", "free_plus_alloc", "negative_fields_exact",
     "lt_iff_sub_nonneg", "gt_iff_sub_nonneg", "gt_iff_lt_swap", "eq_iff", "eq_refl", "eq_symm",
-    "eq_iff_toList", "sub_negative_fields", "positive_fields_iff", "lt_add_right")]
+    "eq_iff_toList", "sub_negative_fields", "positive_fields_iff", "lt_add_right",
+    "no_operator_hooks", "aug_assign_pure", "running_total")]
 TRUSTED_BASE = [
     "gen/capops.py: AST patterns for Capacities.__add__/__sub__/__gt__/__lt__/__eq__/negative_fields/positive_fields and FreeCapacity.__init__",
     "Model/Cap.lean lifts the generated field operators over the field list (loop over __dict__.items()); checked differentially",
@@ -68,6 +69,14 @@ def impl_eval(cl, op, a, b=None):
             return ["ok", _vals(_mk(cl, a) - _mk(cl, b))]
         if op == "free":
             return ["ok", _vals(cl.FreeCapacity(total=_mk(cl, a), allocated=_mk(cl, b)).free)]
+        if op in ("iadd", "isub"):
+            A, B = _mk(cl, a), _mk(cl, b)
+            acc = A
+            if op == "iadd":
+                acc += B
+            else:
+                acc -= B
+            return ["ok", [_vals(acc), _vals(A)]]
         if op == "gt":
             return ["ok", bool(_mk(cl, a) > _mk(cl, b))]
         if op == "lt":
@@ -91,7 +100,7 @@ def correspondence(ctx, res, n=None):
     cases = gen_cases(ctx.sub_rng("corr"), n, len(fields))
     reqs = []
     for a, b, c in cases:
-        for op in ("add", "sub", "free", "gt", "lt", "eq"):
+        for op in ("add", "sub", "free", "gt", "lt", "eq", "iadd", "isub"):
             reqs.append([op, a, b])
         reqs.append(["neg", a])
         reqs.append(["str", a])
@@ -160,6 +169,29 @@ def check_laws(cl, a, b, c, res):
             bad("sub_total", "a-b is not a Capacities value")
         if (A.__dict__, B.__dict__) != snap:
             bad("operands_unchanged", "an operand was modified", observed=[_vals(A), _vals(B)])
+        # augmented assignment, running totals, reflected use through sum(): the objects bound before keep their values
+        acc = A
+        acc += B
+        if A.__dict__ != snap[0] or B.__dict__ != snap[1]:
+            bad("operands_unchanged:iadd", "`acc = a; acc += b` modified an operand", observed=[_vals(A), _vals(B)])
+        elif acc.__dict__ != (A + B).__dict__:
+            bad("iadd_result", "`acc += b` differs from a + b")
+        acc = A
+        acc -= B
+        if A.__dict__ != snap[0] or B.__dict__ != snap[1]:
+            bad("operands_unchanged:isub", "`acc = a; acc -= b` modified an operand", observed=[_vals(A), _vals(B)])
+        elif acc.__dict__ != (A - B).__dict__:
+            bad("isub_result", "`acc -= b` differs from a - b")
+        tot = cl.Capacities()
+        for x in (A, B, C):
+            tot += x
+        if tot.__dict__ != ((A + B) + C).__dict__ or (A.__dict__, B.__dict__) != snap:
+            bad("running_total", "a running total kept with += differs from the sum or modified a summand")
+        fc2 = cl.FreeCapacity(total=A, allocated=B)
+        if (A.__dict__, B.__dict__) != snap:
+            bad("operands_unchanged:free", "FreeCapacity modified total or allocated")
+        if bool(A) is not True:
+            bad("truthiness", "a capacities value is falsy (comparisons start with `if not other`)")
     except Exception as e:
         bad("raises:" + err_kind(e), "capacity operation raised %s: %s" % (type(e).__name__, e))
 
